@@ -243,7 +243,7 @@ fn gen_case(rng: &mut Rng) -> Case {
         let mut kind = rng.below(100);
         // rare, expensive classes first (boundary-value ladder, see mon/ladder.rs)
         let rare = rng.below(300);
-        if rare < 3 {
+        if rare < 4 {
             kind = 200 + rare;
         }
         let (bytes, class): (Vec<u8>, &'static str) = match kind {
@@ -265,6 +265,15 @@ fn gen_case(rng: &mut Rng) -> Case {
                 } else {
                     (b, "ladder-size")
                 }
+            }
+            203 => {
+                // a long run of MCBPC stuffing codes (2^10 .. 2^17 of them) in front of an ordinary picture
+                let fl = if sorenson { Flavour::Sor(rng.below(2) as u8) } else { Flavour::StdPlus };
+                let n = (1usize << (10 + rng.below(8))) + rng.below(9) as usize;
+                let inter = have_ref && rng.chance(1, 2);
+                let p = crate::mon::ladder::stuffed_picture(rng, fl, n * 9 / 8, inter);
+                have_ref = true;
+                (p.encode(), "stuffing-run")
             }
             200..=202 => {
                 // long DQUANT runs towards a clamp
@@ -786,7 +795,7 @@ pub fn run(ctx: &Ctx) -> (Report, String) {
     if ctx.is_main() {
         rep.require("decode_calls", if ctx.tier == Tier::Quick { 1_000_000 } else { 10_000_000 } * ctx.scale_pct / 100);
         rep.require("mb_loop_iterations_observed", 1_000_000 * ctx.scale_pct / 100);
-        for k in ["class=ladder-size", "class=dquant-run", "outcome=Ok", "class=mutated", "class=extra-macroblocks", "class=size-change", "class=umv-chain", "class=degenerate-header", "history_mode=one-reader", "histories_over_an_interrupting_source", "options=sorenson:true/scal:false", "options=sorenson:false/scal:false", "options=sorenson:true/scal:true", "options=sorenson:false/scal:true"] {
+        for k in ["class=ladder-size", "class=dquant-run", "class=stuffing-run", "outcome=Ok", "class=mutated", "class=extra-macroblocks", "class=size-change", "class=umv-chain", "class=degenerate-header", "history_mode=one-reader", "histories_over_an_interrupting_source", "options=sorenson:true/scal:false", "options=sorenson:false/scal:false", "options=sorenson:true/scal:true", "options=sorenson:false/scal:true"] {
             rep.require(k, 100 * ctx.scale_pct / 100);
         }
     }
